@@ -9,4 +9,4 @@ for p in "$@"; do
   echo "[$name] $p rc=$rc :: $(echo "$out" | grep -E "VIOLATION|quick:|thorough:" | tr '\n' ' ' | cut -c1-400)"
 done
 git -C /repo checkout -- .
-(cd harness && cargo build --release --offline >/dev/null 2>&1)
+(cd harness && cargo build --release --offline >/dev/null 2>&1); python3 tools/extract.py >/dev/null
